@@ -221,7 +221,21 @@ def part_select(ctx, n_layout, n_wild, parsers, mu):
         try:
             parsed = p.parse_file(c["text"])
         except Exception as e:  # noqa
-            raise core.InfraError("generated line does not parse (%s): %s" % (isa, e))
+            # every generated line parses on its own (checked when the pools were written).  If the file parses
+            # once its whitespace-only lines are removed, the blank lines are the cause: a C11 failure.
+            stripped = "\n".join(x for x in c["text"].split("\n") if x.strip() != "") + "\n"
+            try:
+                p.parse_file(stripped)
+            except Exception as e2:  # noqa
+                raise core.InfraError("generated line does not parse (%s): %s" % (isa, e2))
+            c["skip"] = True
+            reqs.append("ping")
+            if ctx.counts.get("selection_blank_parse_failures", 0) < 2:
+                ctx.violation("a file with whitespace-only lines cannot be parsed (%s: %s); without them it can"
+                              % (type(e).__name__, str(e)[:120]),
+                              {"kind": "blank-parse", "isa": isa, "text": c["text"]})
+            ctx.count("selection_blank_parse_failures")
+            continue
         c["spelling"] = ctx.rng.choice(ISA_SPELLINGS[isa]) if ctx.rng.random() < 0.9 else ctx.rng.choice(["mips", "x86_64", ""])
         c["impl"] = impl_reduce(mu, parsed, c["spelling"], isa)
         if c["spelling"].lower() not in ("x86", "aarch64"):
@@ -249,6 +263,8 @@ def part_select(ctx, n_layout, n_wild, parsers, mu):
     nc = nv = 0
     dist = {}
     for c, m in zip(cases, model):
+        if c.get("skip"):
+            continue
         mnums, mse = model_reply(m)
         inums, ise = c["impl"]
         key = c["shape"] if not c["shape"].startswith("corpus") else "corpus"
@@ -398,6 +414,10 @@ def shipped_kernels(isa):
         text = open(p).read()
         guess = "aarch64" if re.search(r"\b[xwvqd][0-9]+\b|\[sp", text) and "%" not in text else "x86"
         if guess != isa:
+            continue
+        if "long_LCD" in p:
+            # its LCD search does not finish within minutes without --lcd-timeout, and with a timeout the
+            # result depends on timing (C19's subject): not usable for a deterministic comparison
             continue
         lines = text.rstrip("\n").split("\n")
         fb = find_body(lines, isa)
@@ -562,9 +582,8 @@ def part_e2e(ctx, archs, per_isa, shift_every):
         isa = isa_of_arch(arch)
         ks = kernels[isa]
         if per_isa is not None and len(ks) > per_isa:
-            fixed = [k for k in ks if "kernel_" in k[0] and "long_LCD" not in k[0]][:3]
-            rest = [k for k in ks if k not in fixed and "long_LCD" not in k[0] and "triad_arm_iaca" not in k[0]
-                    and "unmarked" not in k[0]]
+            fixed = [k for k in ks if "kernel_" in k[0]][:3]
+            rest = [k for k in ks if k not in fixed and "triad_arm_iaca" not in k[0] and "unmarked" not in k[0]]
             ks = fixed + ctx.rng.sample(rest, max(0, per_isa - len(fixed)))
         tasks = []
         for ki, (name, body) in enumerate(ks):
@@ -608,14 +627,18 @@ def part_e2e(ctx, archs, per_isa, shift_every):
                    "lines_arg": m["spec"]}
             if "error" in r:
                 nerr += 1
-                if base is None and m["variant"] == "marked":
-                    # the kernel itself cannot be analysed on this model (unknown form crash etc.): not C11's business
+                alone = [results[x] for x in tids if meta[x]["variant"] == "body-only"]
+                if alone and "error" in alone[0]:
+                    # the body itself cannot be analysed on this model (crash on an unknown form etc.): not C11's business
                     ctx.count("e2e_unanalysable_kernels")
+                    ctx.cov["distribution"].setdefault("e2e_unanalysable", []).append("%s on %s: %s" % (kname, arch, r["error"][:120]))
                     break
                 nviol += 1
                 if nviol <= 3:
-                    rep["base_file"] = base["file"]
-                    ctx.violation("%s on %s: variant '%s' fails with %s although the marked file is analysed"
+                    bo = [x for x in tids if meta[x]["variant"] == "body-only"]
+                    if bo:
+                        rep["base_file"] = "\n".join(meta[bo[0]]["lines"]) + "\n"
+                    ctx.violation("%s on %s: variant '%s' fails with %s although the body alone is analysed"
                                   % (kname, arch, m["variant"], r["error"]), rep)
                 continue
             v = r["view"]
@@ -679,9 +702,9 @@ def run(ctx):
     part_convention(ctx)
     part_int(ctx, (4000 if thorough else 800) * boost)
     part_numbering(ctx, (600 if thorough else 120) * boost, parsers)
-    part_select(ctx, (4000 if thorough else 500) * boost, (2000 if thorough else 300) * boost, parsers, mu)
+    part_select(ctx, (4000 if thorough else 800) * boost, (2000 if thorough else 400) * boost, parsers, mu)
     part_lines(ctx, (3000 if thorough else 400) * boost, O)
-    part_e2e(ctx, archs, None if thorough else 6, 4 if thorough else 3)
+    part_e2e(ctx, archs, None if thorough else 8, 4 if thorough else 3)
     ctx.cov["evaluations"] = sum(ctx.counts.get(k, 0) for k in ("selection_files", "lines_strings", "numbering_files", "e2e_runs",
                                                                "int_texts"))
     ctx.cov["distinct_nontrivial"] = ctx.counts.get("selection_oracle_checked", 0) + ctx.counts.get("lines_wellformed", 0) + \
@@ -696,7 +719,7 @@ def run(ctx):
 def replay(ctx, path):
     rep = json.load(open(path))["replay"]
     kind = rep.get("kind")
-    if kind not in ("reduce", "lines", "numbering", "e2e"):
+    if kind not in ("reduce", "lines", "numbering", "e2e", "blank-parse"):
         print("replay names a broken theorem/correspondence, not an input:", json.dumps(rep)[:800])
         ctx.cleanup()
         return 1
@@ -721,6 +744,15 @@ def replay(ctx, path):
             got = "exc:" + type(e).__name__
         print("get_line_range(%r) -> %s expected %s" % (rep["spec"], got, rep["expected"]))
         rc = 0 if got == rep["expected"] else 1
+    elif kind == "blank-parse":
+        p = ParserX86ATT() if rep["isa"] == "x86" else ParserAArch64()
+        try:
+            p.parse_file(rep["text"])
+            print("parse_file succeeds")
+            rc = 0
+        except Exception as e:  # noqa
+            print("parse_file raises %s: %s" % (type(e).__name__, e))
+            rc = 1
     elif kind == "numbering":
         p = ParserX86ATT() if rep["isa"] == "x86" else ParserAArch64()
         got = [f.line_number for f in p.parse_file(rep["text"])]
